@@ -414,9 +414,16 @@ pub fn statement<'t>(ctx: Context<'t>) -> ParseResult<'t, Statement> {
         // `ret [<expression>]`
         [T::Ret, ..] => {
             let ctx = ctx.skip(1);
-            let (ctx, value) = match expression(ctx) {
-                Ok((ctx, value)) => (ctx, Some(value)),
-                Err(_) => (ctx, None),
+            // A bare `ret` is followed by the end of the statement - anything else has to be
+            // an expression, and its errors are the ones to report.
+            let (ctx, value) = if matches!(
+                ctx.token(),
+                T::Newline | T::End | T::Else | T::Elif | T::EOF
+            ) {
+                (ctx, None)
+            } else {
+                let (ctx, value) = expression(ctx)?;
+                (ctx, Some(value))
             };
             (ctx, Ret { value })
         }
